@@ -54,6 +54,8 @@ def gen_pair(rng, tier):
     scale = float(rng.choice([1e-3, 0.1, 1, 1, 1, 10, 1e3]))
     kind = str(rng.choice(["float", "cluster", "dyadic", "diagheavy", "grid"]))
     A, B = gen.diagram(rng, m, kind, scale), gen.diagram(rng, n, kind, scale)
+    if rng.random() < 0.15 and m and n:
+        A = gen.specialize(rng, A, scale); B = gen.entangle(rng, A, gen.specialize(rng, B, scale))
     sign = str(rng.choice(["pos", "neg", "mixed", "pos"]))
     if sign == "neg":
         s = -float(rng.uniform(3, 30)) * scale
